@@ -2,7 +2,7 @@
     Statements only; each closed by [exact] of a lemma in Proofs/Loop.v / Proofs/LoopProps.v.
     Model: Model/Loop.v ([bench_loop c init hist]: the sampling loop run on a
     history [hist] = the raw samples each round brought back, one per thread). *)
-From DivanV Require Import Base.Res Generated.Consts Model.Timestamp Model.Loop Proofs.Loop Proofs.LoopProps Proofs.LoopSb.
+From DivanV Require Import Base.Res Generated.Consts Model.Timestamp Model.Loop Proofs.Loop Proofs.LoopProps Proofs.LoopSb Proofs.LoopExamples.
 Local Open Scope N_scope.
 
 (** Obligations on the generated constants: the default sample count and the
@@ -93,3 +93,10 @@ Theorem C03_model_sb : forall c init hist out t s,
   c03_sb c t init pre s = true.
 Proof. exact c03_model_sb. Qed.
 Print Assumptions C03_model_sb.
+
+(** Non-vacuity of [C03_test_mode_once] and [C03_zero_runs_nothing]. *)
+Theorem C03_test_mode_example :
+  c_test ex_test_cfg = true /\ zero_case ex_test_cfg = false /\
+  exists st, bench_loop ex_test_cfg 0 [[ex_raw 1 2; ex_raw 1 3; ex_raw 0 9]; [ex_raw 5 6]] = Ok (Done st) /\
+             s_sizes st = [1] /\ s_store st = store_empty.
+Proof. exact test_mode_example. Qed.
